@@ -224,6 +224,36 @@ def run(R):
         srcs = sorted(q.src(v) for k, v in flat if k == "expr")
         R.check(srcs[:2] == ["args", "args[0]"], "C14.TIE", f.qualname + ":varargs", R.site(f),
                 "one positional argument is the iterable, several are the elements", "argument handling differs from %s: iterable is %s" % (builtin, srcs))
+        # which path is taken: plain builtin only without a key, keyed path only with one; a single positional argument is the iterable
+        fcfg = cfg_of(f)
+        kf = common.assigned_values(f.node, "key_fn")
+        R.check(len(kf) == 1 and q.src(kf[0][1]) == "kwargs.pop('key', None)", "C14.TIE", f.qualname + ":key-arg", R.site(f),
+                "the key function is the `key` keyword argument (default None)", "key_fn is %s" % [q.src(v) for k, v in kf if k == "expr"])
+
+        def guard_of(kind, subj, want_pos):
+            def g(nd):
+                if nd.kind != "test":
+                    return None
+                k, s, pos = q.atom_test(nd.ast)
+                if k == kind and s == subj:
+                    return ("T" if pos else "F") if want_pos else ("F" if pos else "T")
+                return None
+            return g
+        for c in plain:
+            nodes = [n for n in fcfg.nodes if c in kit.node_calls(n)]
+            p = kit.path_avoiding_guard(fcfg, nodes, guard_of("isnone", "key_fn", True), N)
+            R.check(p is None, "C14.TIE", f.qualname + ":no-key-path", R.site(f, c), "the plain %s(iterable) is used only when no key was given" % builtin,
+                    "the plain %s(iterable) can be used although a key function was given: the key is ignored" % builtin, fcfg.fmt_path(p) if p else None)
+        for c in keyed:
+            nodes = [n for n in fcfg.nodes if c in kit.node_calls(n)]
+            p = kit.path_avoiding_guard(fcfg, nodes, guard_of("isnone", "key_fn", False), N)
+            R.check(p is None, "C14.TIE", f.qualname + ":key-path", R.site(f, c), "the keyed path is taken only when a key function was given",
+                    "the keyed path can be taken with key_fn None", fcfg.fmt_path(p) if p else None)
+        one = [n for n in fcfg.nodes if n.kind == "stmt" and isinstance(n.ast, ast.Assign) and q.src(n.ast.value) == "args[0]"]
+        if one:
+            p = kit.path_avoiding_guard(fcfg, one, guard_of("eq", tuple(sorted(["len(args)", "1"])), True), N)
+            R.check(p is None, "C14.TIE", f.qualname + ":one-arg", R.site(f), "args[0] is the iterable only when exactly one positional argument was given",
+                    "args[0] can be taken as the iterable although several elements were given", fcfg.fmt_path(p) if p else None)
     # ---- afilter / afilterfalse / asift use the same materialised sequence for calls and selection
     for h, negate in (("afilter", False), ("afilterfalse", True)):
         f = repo.fn("tools." + h)
